@@ -336,7 +336,15 @@ partial def runQueue (r : RState) (direct : Option Agent) : RState :=
               else runQueue { r with q := r.q ++ [Agent.worker], s := (step H r.s (Op.wake 0)).1 } none
           | (s1, _) => { r with s := s1 }
 
-def runGo (scripts : List (List Act)) (t0 : Nat) : List String :=
+/-- `go [mode]`: the awaitable handed to `start()` — 0 `future<void>` completing, 1 `future<void>` failing with
+test_exc(7), 2 `future<int>` yielding 1000 + number of coroutines, 3 `future<int>` failing: what `start()` hands back -/
+def retSuffix (mode n : Nat) : String :=
+  match mode % 4 with
+  | 0 => ""
+  | 2 => s!"=v:{1000 + n}"
+  | _ => "=exc:7"
+
+def runGo (scripts : List (List Act)) (t0 : Nat) (mode : Nat := 0) : List String :=
   let r0 : RState := { clock := t0, cos := (scripts.map (fun sc => ({ script := sc } : Co))).toArray, live := scripts.length }
   let r0 := if scripts.isEmpty then { r0 with allDone := true } else r0
   -- creation: each coroutine runs up to its first suspension under its own temporary queue
@@ -346,7 +354,7 @@ def runGo (scripts : List (List Act)) (t0 : Nat) : List String :=
   -- start(all_done)
   let r2 := { r1 with started := true, stop := r1.allDone, q := [Agent.worker] }
   let r3 := runQueue r2 none
-  (r3.evs.toList ++ [s!"ret@{r3.clock}", dumpStr r3.s.heap])
+  (r3.evs.toList ++ [s!"ret@{r3.clock}" ++ retSuffix mode scripts.length, dumpStr r3.s.heap])
 
 partial def loopRun (lines : Array String) (i : Nat) (t0 : Nat) (scripts : List (List Act)) : IO Nat := do
   if h : i < lines.size then
@@ -356,8 +364,8 @@ partial def loopRun (lines : Array String) (i : Nat) (t0 : Nat) (scripts : List 
     | "co" :: acts =>
         IO.println s!"co#{scripts.length}"
         loopRun lines (i + 1) t0 (scripts ++ [acts.filterMap parseAct])
-    | ["go"] =>
-        IO.println (withEvents "go" (runGo scripts t0))
+    | "go" :: rest =>
+        IO.println (withEvents "go" (runGo scripts t0 ((rest.head? >>= String.toNat?).getD 0)))
         loopRun lines (i + 1) t0 []
     | [] => loopRun lines (i + 1) t0 scripts
     | _ => IO.println "bad-op"; loopRun lines (i + 1) t0 scripts
